@@ -214,7 +214,9 @@ def run_schedule(sched):
                 pass
             else:
                 raise ValueError(do)
-        await w.loop.drain(horizon=sched.get("horizon"))
+        # an endpoint that never stops retransmitting (possible on a changed tree) must not keep the run going for
+        # ever: beyond a generous budget of events / virtual time the run is cut (the clauses have spoken by then)
+        await w.loop.drain(horizon=sched.get("horizon"), stop=lambda: len(events) > 4000 or w.loop.time() > 1.0e6)
         ev("end")
         frozen.append(True)
         # resolve tokens to request numbers
